@@ -106,11 +106,17 @@ pub fn corr(ctx: &mut Ctx) {
         let total = verif::disarm_deadline();
         st.count("animated_cases");
         st.add("deadline_checks_untimed", total);
-        for k in 0..=total.min(40) {
+        // every k on the one-thread pool (the frames look at the clock in index order: a prefix of them is recompressed)
+        // and on a pool of two or four threads (they look at it in whatever order the workers get to them: any subset)
+        for (k, threads) in (0..=total.min(40)).flat_map(|k| [(k, 1usize), (k, if k % 2 == 0 { 2 } else { 4 })]) {
             verif::arm_deadline(Some(k));
-            let out = pool.install(|| run_case(&case.input, &case.opts));
+            let out = if threads == 1 { pool.install(|| run_case(&case.input, &case.opts)) } else {
+                let p = rayon::ThreadPoolBuilder::new().num_threads(threads).build().unwrap();
+                p.install(|| run_case(&case.input, &case.opts))
+            };
             verif::disarm_deadline();
             st.count("animated_runs");
+            if threads > 1 { st.count("animated_runs_on_several_threads"); }
             let c2 = Case { img: case.img.clone(), class: format!("{} expire_at={}", case.class, k), enc: case.enc.clone(), input: case.input.clone(), opts: case.opts.clone() };
             judge("C02", &c2, &out, &mut st);
             judge("C04", &c2, &out, &mut st);
